@@ -126,6 +126,7 @@ def run(chk: common.Check, tier: str):
             chk.violation("a validator object that has already reported an alternative judges later rules differently from a "
                           f"fresh one: fresh {fresh}, shared {shared}, shared second pass {again}",
                           {"grammar": text, "how": "SubRuleValidator(g).validate_rule(name, rule) for every rule, catching ValidationError"}, True)
+    cli_entry(chk, tier)
     cases, texts, reals = [], [], []
     for text in grammar_texts(tier):
         try:
@@ -161,6 +162,44 @@ def run(chk: common.Check, tier: str):
     chk.assumptions += ["items are compared by their rendered text (str(item)), which is what both the "
                         "implementation and the property's notion of 'sequence of items' use",
                         "only rule-level alternatives are compared (nested groups are not validated by pegen)"]
+
+
+CLI_GRAMMARS = [
+    "start: a=foo { a } | b=foo c=foo_bar { [b, c] }\nfoo: NAME\nfoo_bar: NUMBER\n",
+    "start: foo | foo foo_bar\nfoo: NAME\nfoo_bar: NUMBER\n",
+    "start: x=NAME y=NUMBER { x } | NAME\n",                         # the shorter one comes second: fine
+    "start: x[int]=NAME { x } | y=NAME z=NUMBER { y }\n",
+    "start: foo_bar | foo baz\nfoo: NAME\nfoo_bar: NUMBER\nbaz: 'z'\n",   # a character prefix only
+    "start: a='x' { a } | 'x' b=NAME { b }\n",
+]
+
+
+def cli_entry(chk, tier):
+    """the command line at every verbosity: the verdict must be the one of the item sequences (names, types and actions of
+    the items play no role), whatever rendering options the entry point switches on"""
+    import os
+    import subprocess
+    import tempfile
+    env = dict(os.environ, PYTHONPATH=str(common.REPO / "src"), PYTHONHASHSEED="0")
+    env.pop("PEGEN_VERIF", None)
+    with tempfile.TemporaryDirectory(prefix="c18cli") as td:
+        for k, text in enumerate(CLI_GRAMMARS):
+            want = spec_validate(g2c.read_grammar(text))
+            gf = os.path.join(td, f"g{k}.gram")
+            open(gf, "w").write(text)
+            for flags in ([["-q"], ["-q", "-v"], ["-q", "-vv"]] if tier == "quick" else [["-q"], ["-q", "-v"], ["-q", "-vv"], ["-q", "-vvv"], ["-v"], []]):
+                out = os.path.join(td, f"p{k}.py")
+                if os.path.exists(out):
+                    os.remove(out)
+                r = subprocess.run([common.PY, "-m", "pegen", *flags, gf, "-o", out], env=env, capture_output=True, text=True,
+                                   timeout=120, cwd=td)
+                refused = r.returncode != 0 or not os.path.exists(out)
+                chk.count()
+                chk.bump("cli " + " ".join(flags))
+                if refused != want:
+                    chk.violation(f"python -m pegen {' '.join(flags)} {'refuses' if refused else 'accepts'} a grammar whose item-wise "
+                                  f"prefix test says {'refuse' if want else 'accept'}",
+                                  {"grammar": text, "flags": flags, "exit": r.returncode, "stderr": r.stderr[-400:]}, True)
 
 
 def replay(path: str) -> int:
